@@ -3,6 +3,7 @@
 package opset13
 
 import (
+	"errors"
 	"fmt"
 
 	"github.com/advancedclimatesystems/gonnx/internal/zzverif"
@@ -30,7 +31,16 @@ func H_C15_gate(v *zzverif.T) {
 	if err != nil {
 		return
 	}
-	min, max := op.GetMinInputs(), op.GetMaxInputs()
+	// the reference: the opset's arity and allowed element types, NOT the operator's own current declaration
+	gold, known := zzGolden[name]
+	v.Assert("C15.operator-of-the-opset", known)
+	if !known {
+		return
+	}
+	min, max := gold.min, gold.max
+	if name != "Concat" {
+		v.Assert("C15.declared-arity-is-the-opset's", op.GetMinInputs() == min && op.GetMaxInputs() == max)
+	}
 	if name == "Concat" {
 		// Concat accepts any number >= 1 of inputs of any type: its bounds are set per call
 		max = n
@@ -59,9 +69,24 @@ func H_C15_gate(v *zzverif.T) {
 	if panicked {
 		return
 	}
-	cons := op.GetInputTypeConstraints()
+	cons := make([][]tensor.Dtype, len(gold.types))
+	for i, names := range gold.types {
+		for _, dn := range names {
+			for _, d := range zzverif.DtypeUniverse {
+				if d.Name() == dn {
+					cons[i] = append(cons[i], d)
+				}
+			}
+		}
+	}
+	if name == "Concat" {
+		for i := 0; i < n; i++ {
+			cons = append(cons, zzverif.DtypeUniverse)
+		}
+	}
 	countOK := min <= n && n <= max
 	expectOK := countOK
+	gateOK := false // count and per-position element types are fine (operator-specific rules come on top)
 	if countOK {
 		v.Assert("C15.constraints-cover-every-position", len(cons) >= n)
 		if len(cons) < n {
@@ -81,12 +106,30 @@ func H_C15_gate(v *zzverif.T) {
 				expectOK = false
 			}
 		}
+		gateOK = expectOK
 		if name == "PRelu" && n == 2 && inputs[0] != nil && inputs[1] != nil && inputs[0].Dtype() != inputs[1].Dtype() {
 			expectOK = false
+		}
+		if name == "Concat" {
+			// one element type for all inputs
+			for i := 1; i < n; i++ {
+				if inputs[i] != nil && inputs[0] != nil && inputs[i].Dtype() != inputs[0].Dtype() {
+					expectOK = false
+				}
+			}
 		}
 	}
 	v.Assert("C15.accepted-iff-arity-and-types-allowed", (verr == nil) == expectOK)
 	if verr != nil {
+		// a wrong count or a disallowed element type is reported as an input error (PRelu's equal-types rule
+		// has its own kind)
+		var ie *ops.InputError
+		var te *ops.InvalidTensorError
+		if !gateOK {
+			v.Assert("C15.refusal-is-an-input-error", errors.As(verr, &ie))
+		} else {
+			v.Assert("C15.operator-specific-refusal-is-a-tensor-error", errors.As(verr, &te))
+		}
 		return
 	}
 	v.Assert("C15.padded-to-max", len(got) == max)
